@@ -139,7 +139,14 @@ def reduce_1d(reduce_func_name: str, arr, skipna: bool = True, n_threads: int = 
             list(zip(np.array_split(arr, n_threads))),
         )
         chunks = output_converter(chunks)
-        result = reduce_1d(chunk_reduction, chunks, skipna=skipna, n_threads=1)
+        # a block sum is never null (an empty or all-null block sums to 0), so a NaN
+        # among the block sums is a real NaN (inf - inf) and must not be skipped
+        result = reduce_1d(
+            chunk_reduction,
+            chunks,
+            skipna=skipna and chunk_reduction != "sum",
+            n_threads=1,
+        )
 
     if is_count:
         result = np.int64(result)
